@@ -50,6 +50,12 @@ class SymmetricQuantizer(Function):
                 raise ValueError(
                     "When quantizing per-axis, the scale must be broadcastable to the base (Tip: try to add missing dims of length zero)."
                 )
+            expected_shape = [1] * base.ndim
+            expected_shape[axis] = base.shape[axis]
+            if list(scale.shape) != expected_shape:
+                raise ValueError(
+                    f"When quantizing along axis {axis}, the scale must contain one value per index of that axis: expected shape {expected_shape}, got {list(scale.shape)}."
+                )
         # A null scale is obtained when all values are null: 0 / 0 must not produce NaN codes
         data = torch.nan_to_num(base / scale, nan=0.0)
         if not qtype.is_floating_point:
